@@ -1244,3 +1244,9 @@ correspondence, search, replay = _history.attach(PID, correspondence, search, re
 from props import thirdparty as _thirdparty  # noqa: E402
 
 correspondence, search, replay = _thirdparty.attach(PID, correspondence, search, replay)
+
+
+# somebody else's machine: the same small sessions in other environments, in child processes (props/envs.py)
+from props import envs as _envs  # noqa: E402
+
+correspondence, search, replay = _envs.attach(PID, correspondence, search, replay)
